@@ -2,7 +2,7 @@
 import re
 from norm import norm, core, subterms, contains, key_variant, const_value, const_int, is_param, variant_name, find
 from model import effects, state_effects, auths, STATE_KINDS
-from guards import guard_edges, negate
+from guards import guard_edges, negate, cond_true
 from fmt import fmt
 
 
@@ -260,6 +260,63 @@ def is_bookkeeping(e, known_keys):
     """a storage write under a key that none of this contract's rules speaks about (a counter, a statistic, a label added later): it
     cannot change what a property constrains; the keys the rules DO speak about stay subject to the who-may-write tables"""
     return e.kind in ('sw', 'supd') and key_variant(e.key)[0] is not None and key_variant(e.key)[0] not in known_keys
+
+
+def is_zero_bytes(a):
+    """a byte array of zeroes, however it is written: `[0; N]`, a named constant holding it, an array literal of zeroes"""
+    a = core(a)
+    if a[0] == 'repeat':
+        return const_int(a[1]) == 0
+    if a[0] == 'const':
+        return re.match(r'^\*?b"(\\x00)+"$', a[1]) is not None
+    if a[0] == 'array':
+        return bool(a[1]) and all(const_int(x) == 0 for x in a[1])
+    return False
+
+
+def decided_by(g, guard_sets, residual=None):
+    """the entry returns statically true/false on every exit, `true` only through every one of the guard sets (their conjunction) and
+    `false` only through another edge of one of those tests (the query result IS the tested condition, whatever the spelling: ==,
+    matches!, match with a guard, if, an intermediate enum).  With `residual`, an exit may also return a computed boolean: it must lie
+    behind every guard set and the value returned on those paths must be a condition residual() accepts (the last conjunct is
+    returned instead of branched on: `stored.approved_hash().is_some_and(|h| h == expected)`)"""
+    if guard_sets and not isinstance(guard_sets[0], list):
+        guard_sets = [guard_sets]
+    trues = set(g.exit_sids(lambda v: v == ('b', True)))
+    falses = set(g.exit_sids(lambda v: v == ('b', False)))
+    unknown = set(g.exit_sids(lambda v: v not in (('b', True), ('b', False))))
+    if not guard_sets or not all(guard_sets) or not falses:
+        return False
+    if unknown:
+        if residual is None or trues:
+            return False
+        for s_ in unknown:
+            if not residual(cond_true(norm(g.exit_term(s_)))):
+                return False
+    elif not trues:
+        return False
+    comp = []
+    for gs in guard_sets:
+        te = set(edges(gs))
+        if g.reach(None, (), list(te)) & (trues | unknown):
+            return False
+        nodes = set((cid, bb) for cid, bb, _ in te)
+        comp += [gd.edge for gd in guard_edges(g) if (gd.ctx.id, gd.bb) in nodes and gd.edge not in te]
+    return not (g.reach(None, (), comp) & falses)
+
+
+def presence_query(g, storage, variant, arg):
+    """the boolean entry returns exactly `storage has Variant(arg)`: the `has` result itself, or true/false decided by that test"""
+    root = g.ctxs[0]
+    vals = []
+    for bi, b in enumerate(root.body['blocks']):
+        if not b['cleanup'] and b['term']['t'] == 'return' and (0, bi) in g.node_states:
+            vals.append(norm(g.term_local(root, bi, len(b['st']), 0)))
+    if vals and all(v[0] == 'shas' and v[1] == storage and key_variant(v[2])[0] == variant and core(key_variant(v[2])[1][0]) == arg for v in vals):
+        return True
+    pres = guard_sel(g, lambda c_: c_[0] == 'present' and c_[1][0] == 'skey' and c_[1][1] == storage and key_variant(c_[1][2])[0] == variant
+                     and core(key_variant(c_[1][2])[1][0]) == arg)
+    return decided_by(g, pres)
 
 
 def within_entry(g, e, names):
